@@ -42,7 +42,7 @@ ALPHABET_TEXT = list('"\'\\|>!&*%[]{}:#-?@`,~<=') + ['\n', '\r', '\t', ' ', '\x0
 ALPHABET_BYTES = [ord(c) for c in '"\'\\|>!&*%[]{}:#-?@`,~<=\n\r\t 09UuxFfG'] + [0x00, 0x85, 0xFF, 0xFE, 0xC0, 0xC2, 0xEF, 0xBB, 0xBF,
                                                                                  0x80, 0xE2, 0xED, 0xF4, 0xF8, 0x7F, 0x01]
 FAULTS = ['truncate', 'bitflip', 'overwrite', 'drop', 'duplicate', 'stutter', 'swap', 'garbage', 'bom', 'oddlen',
-          'confuse', 'surrogate', 'nest', 'transcode', 'numfield', 'flood', 'repeatitem']
+          'confuse', 'surrogate', 'nest', 'transcode', 'numfield', 'flood', 'repeatitem', 'numlong']
 # what ends up in a numeric field (escape code, URI escape, version number, indentation indicator)
 # after a small corruption: the characters that int() / float() / str.isdigit() accept or almost accept
 NUMFIELD_CHARS = ['-', '+', ' ', '\t', '_', '.', 'x', 'X', 'o', 'b', 'e', 'L', 'l', 'G', 'g', '\n', '\u0663', '\u00b2', '\u2460', '\uff10',
@@ -151,6 +151,17 @@ def gen_fault(r, units, is_text):
         else:
             f['at'] = q
             f['unit'] = r.choice(NUMFIELD_CHARS)
+    elif kind == 'numlong':
+        # a numeric field grown to dozens or hundreds of digits (a stuck key, a corrupted length), with or without a
+        # character after it that makes the whole thing stop being a number
+        q = numfield_pos(r, units, is_text)
+        if q is None or (not is_text and units[:2] in (b'\xff\xfe', b'\xfe\xff')):
+            f['kind'] = 'overwrite'
+            f['unit'] = r.choice(ALPHABET_TEXT) if is_text else r.choice(ALPHABET_BYTES)
+        else:
+            f['at'] = q
+            f['times'] = r.choice([24, 30, 40, 64, 300, 1200])
+            f['tail'] = r.choice(['G', '-', 'x', '_', '.', ':', 'z', '']) if r.random() < 0.7 else None
     elif kind == 'repeatitem':
         # message duplication at record granularity: one item of a flow collection / one line repeated many times
         seps = [0]
@@ -226,6 +237,18 @@ def apply_fault(units, f, is_text):
         if p >= n:
             return units
         return units[:p] + (f['unit'] if is_text else bytes([f['unit']])) + units[p + 1:]
+    if k == 'numlong':
+        if p >= n:
+            return units
+        unit = units[p:p + 1]
+        e = p + 1
+        digits = '0123456789abcdefABCDEF_' if is_text else b'0123456789abcdefABCDEF_'
+        while e < n and units[e:e + 1] in digits and e - p < 64:
+            e += 1
+        tail = f.get('tail')
+        ins = unit * f['times']
+        t = (tail if is_text else tail.encode('ascii')) if tail else (units[:0])
+        return units[:p] + ins + units[p:e] + t + units[e:]
     if k == 'flood':
         ins = f['unit'] * f['times'] if is_text else bytes([f['unit']]) * f['times']
         if not is_text and units[:2] in (b'\xff\xfe', b'\xfe\xff'):
